@@ -15,7 +15,11 @@ import (
 //	priv.text s:<statement text> l:<lower table>      ParseStatement(text).RequiredPrivileges()   (C19)
 //	columns.text s:<SELECT text> <omitTime 0|1> s:<timeAlias> l:<lower table> [colCase arguments]
 //	                                                  ParseStatement(text), OmitTime / TimeAlias set, ColumnNames()   (C20)
+//	fields.text s:<SELECT text> ct:<0|1> m:<schema> x:<names;pairs> l:<lower table> [statement words of fields.rewrite]
+//	                                                  ParseStatement(text).(*SelectStatement).RewriteFields(mapper)   (C12)
 //
+// The trailing statement words of fields.text (the structured case the text was rendered from) are read by the
+// property oracle and the known-finding classifier only.
 // The trailing colCase arguments of columns.text (the case of columns.names the text was rendered from) are read
 // by the property oracle only: neither the model nor the implementation runner looks at them.
 
@@ -155,7 +159,85 @@ func genColumnsText(r *rand.Rand, n int, emit func(args ...string)) {
 	})
 }
 
+// ---- fields.text (C12) ----
+
+func implFieldsText(args []string) string {
+	if len(args) < 5 {
+		return "bad-arg"
+	}
+	text, err := decStr(args[0])
+	if err != nil {
+		return "bad-arg"
+	}
+	schema, err := decSchema(args[2])
+	if err != nil {
+		return "bad-arg " + err.Error()
+	}
+	if manyDigits(text) && longNumberLiteral(text) {
+		return "skip-float-precision"
+	}
+	st, err := influxql.ParseStatement(text)
+	if err != nil {
+		return errLine(err)
+	}
+	sel, ok := st.(*influxql.SelectStatement)
+	if !ok {
+		return "not-select"
+	}
+	c := &fCase{ct: args[1] == "ct:1", schema: schema}
+	rw, rerr := sel.RewriteFields(c.mapper())
+	return canonRewrite(rw, rerr)
+}
+
+// genFieldsText: every case of genFieldsRewrite with its statement rendered to text (fStmt.text()); the schema,
+// the regex oracle and the structured statement follow unchanged, the lower table is that of the text.
+func genFieldsText(r *rand.Rand, n int, emit func(args ...string)) {
+	genFieldsRewrite(r, n, func(args ...string) {
+		c, err := decFCase(args)
+		if err != nil {
+			return
+		}
+		text := c.stmt.text()
+		out := []string{encStr(text), args[0], args[1], args[2], encLower(text)}
+		emit(append(out, args[4:]...)...)
+	})
+}
+
+// fieldsTextAdapter: the arguments of fields.rewrite for the same case.
+func fieldsTextAdapter(args []string) []string {
+	if len(args) < 6 {
+		return nil
+	}
+	return args[1:]
+}
+
 func init() {
+	register(&stream{name: "fields.text", gen: genFieldsText, impl: implFieldsText,
+		prop: func(args []string) string {
+			a := fieldsTextAdapter(args)
+			if a == nil {
+				return "skip"
+			}
+			return propFieldsRewrite(a)
+		},
+		known: func(args []string) string {
+			a := fieldsTextAdapter(args)
+			if a == nil {
+				return ""
+			}
+			return knownFieldsRewrite(a)
+		},
+		class: func(args []string, out string) string {
+			a := fieldsTextAdapter(args)
+			if a == nil {
+				return "bad"
+			}
+			return classFieldsRewrite(a, out)
+		},
+		nontrivial: func(args []string, out string) bool {
+			return strings.HasPrefix(out, "ok") || strings.HasPrefix(out, "err")
+		}})
+
 	register(&stream{name: "columns.text", gen: genColumnsText, impl: implColumnsText,
 		prop: func(args []string) string {
 			if len(args) < 8 {
